@@ -36,7 +36,8 @@ NS = {
     "inf": float("inf"),
     "S": lambda c, n: c * n,  # S('a', 65536)
     "__builtins__": {"True": True, "False": False, "None": None, "bytes": bytes, "float": float, "int": int,
-                     "str": str, "range": range, "list": list, "tuple": tuple, "dict": dict, "chr": chr},
+                     "str": str, "range": range, "list": list, "tuple": tuple, "dict": dict, "chr": chr, "bytearray": bytearray,
+                     "memoryview": memoryview, "set": set, "frozenset": frozenset, "object": object},
 }
 
 _code_cache: dict = {}
